@@ -132,6 +132,15 @@ func c03Mutators() []mutator {
 			m.resign(b, nil, refspec.DOMAIN_BEACON_PROPOSER, &g, b.Message.ProposerIndex)
 			return true
 		}},
+		{"outer/block-of-the-previous-fork-type", true, func(m *mutCtx, b *refspec.SignedBlock) bool {
+			// the same content encoded and signed as a block of the previous fork (fields the older body lacks are dropped)
+			if b.Message.Fork == 0 || b.Message.Fork != m.pre.Fork {
+				return false
+			}
+			b.Message.Fork--
+			m.resign(b, nil, refspec.DOMAIN_BEACON_PROPOSER, nil, b.Message.ProposerIndex)
+			return true
+		}},
 		// ---- randao
 		{"randao/other-epoch", false, func(m *mutCtx, b *refspec.SignedBlock) bool {
 			ep := m.sp.CurrentEpoch(m.pre) + 1
@@ -189,6 +198,33 @@ func c03Mutators() []mutator {
 			a.Data.Slot = m.pre.Slot
 			a.Data.Target.Epoch = m.sp.EpochAtSlot(a.Data.Slot)
 			return true
+		}),
+		att("older-than-one-epoch-but-previous-epoch-target", func(m *mutCtx, a *refspec.Attestation, b *refspec.SignedBlock) bool {
+			// a fully valid aggregate of the previous epoch, SLOTS_PER_EPOCH+1 slots old: refused before deneb, accepted since (EIP-7045)
+			spe := m.sp.SLOTS_PER_EPOCH
+			if m.pre.Slot < spe+1 || m.pre.Slot%spe == 0 {
+				return false
+			}
+			old, ok := m.c.MakeAttestation(m.pre, m.pre.Slot-spe-1, 0, sim.Plan{Participation: 1})
+			if !ok {
+				return false
+			}
+			*a = old
+			return true
+		}),
+		att("previous-epoch-target-with-the-current-justified-source", func(m *mutCtx, a *refspec.Attestation, b *refspec.SignedBlock) bool {
+			if m.pre.PreviousJustifiedCheckpoint == m.pre.CurrentJustifiedCheckpoint {
+				return false
+			}
+			for i := range b.Message.Body.Attestations {
+				x := &b.Message.Body.Attestations[i]
+				if x.Data.Target.Epoch == m.sp.PreviousEpoch(m.pre) && x.Data.Target.Epoch != m.sp.CurrentEpoch(m.pre) {
+					x.Data.Source = m.pre.CurrentJustifiedCheckpoint
+					resignAtt(m, x, nil, refspec.DOMAIN_BEACON_ATTESTER)
+					return true
+				}
+			}
+			return false
 		}),
 		att("slot-too-old", func(m *mutCtx, a *refspec.Attestation, b *refspec.SignedBlock) bool {
 			if m.pre.Slot < 2*m.sp.SLOTS_PER_EPOCH+2 {
@@ -779,6 +815,33 @@ func runC03(b *fw.B) {
 			c03Base(b, ctx, c, built, muts, sc)
 			return false
 		}}
+		slashedBases := 0
+		hooks.onSlashedProposer = func(c *sim.Chain, slot uint64) {
+			// no valid block exists at this slot: build the block the proposer would have made were it not slashed
+			if slashedBases >= 2 {
+				return
+			}
+			sib, err := c.Sibling()
+			if err != nil {
+				return
+			}
+			pre := sib.Ref.Copy()
+			if sib.Sp.ProcessSlots(pre, slot) != nil {
+				return
+			}
+			pi, err := sib.Sp.BeaconProposerIndex(pre)
+			if err != nil || !sib.Ref.Validators[pi].Slashed {
+				return
+			}
+			sib.Ref.Validators[pi].Slashed = false
+			built, err := sib.BuildBlock(slot, sim.Plan{Participation: 0.5, SyncParticipation: 0.5})
+			if err != nil {
+				return
+			}
+			slashedBases++
+			b.Inc("bases_by_a_slashed_proposer")
+			c03Base(b, ctx, c, built, []mutator{{"header/proposer-is-slashed", false, func(m *mutCtx, blk *refspec.SignedBlock) bool { return true }}}, sc)
+		}
 		runChain(b, sc, hooks, func(m *sim.Mismatch, trace []string) {
 			if m.Kind != "harness" && m.Kind != "genesis" {
 				b.Inc("chain_stopped_by_transition_mismatch_not_judged_here")
@@ -794,8 +857,8 @@ func c03Base(b *fw.B, ctx context.Context, c *sim.Chain, built *sim.Built, muts 
 	sp := c.Sp
 	fork := built.Signed.Message.Fork
 	m := &mutCtx{c: c, sp: sp, pre: built.Pre, valid: built.Signed, b: b}
-	digest := common.ComputeForkDigest(common.Version(sp.ForkVersions[fork]), common.Root(c.Ref.GenesisValidatorsRoot))
-	runZ := func(data []byte, validate bool) (decodeErr, err error, panicked any, z *beacon.StandardUpgradeableBeaconState) {
+	runZf := func(data []byte, validate bool, fork int) (decodeErr, err error, panicked any, z *beacon.StandardUpgradeableBeaconState) {
+		digest := common.ComputeForkDigest(common.Version(sp.ForkVersions[fork]), common.Root(c.Ref.GenesisValidatorsRoot))
 		cp, cerr := c.Z.BeaconState.CopyState()
 		if cerr != nil {
 			return cerr, nil, nil, nil
@@ -811,6 +874,9 @@ func c03Base(b *fw.B, ctx context.Context, c *sim.Chain, built *sim.Built, muts 
 			err = common.StateTransition(ctx, c.ZSpec, epc, z, env, validate)
 		})
 		return decodeErr, err, p, z
+	}
+	runZ := func(data []byte, validate bool) (decodeErr, err error, panicked any, z *beacon.StandardUpgradeableBeaconState) {
+		return runZf(data, validate, fork)
 	}
 	for _, mu := range muts {
 		blk := deepCopy(*built.Signed)
@@ -831,7 +897,7 @@ func c03Base(b *fw.B, ctx context.Context, c *sim.Chain, built *sim.Built, muts 
 			b.Inc("mutants_not_encodable")
 			continue
 		}
-		decErr, zErr, panicked, z := runZ(data, mu.outer)
+		decErr, zErr, panicked, z := runZf(data, mu.outer, blk.Message.Fork) // decoded as the fork type the mutant claims
 		where := fmt.Sprintf("mutant %q of the %s block at slot %d", mu.name, refspec.ForkNames[fork], built.Signed.Message.Slot)
 		if panicked != nil {
 			b.Violate("panic/"+mu.name, fmt.Sprintf("%s: zrnt panicked: %v — scenario %s", where, panicked, sc.String()), map[string]any{"block_ssz_hex": fmt.Sprintf("%x", data)})
